@@ -23,6 +23,10 @@ pub struct Obj {
     creator: RealUsize,
 }
 
+/// percentage of values (chosen by identity) whose destructor panics (fault injection, C18)
+pub static PANICKY_PCT: RealUsize = RealUsize::new(0);
+pub static PANICKY_MADE: RealUsize = RealUsize::new(0);
+
 /// classification counters (reset per execution)
 pub static CROSS_READ: RealUsize = RealUsize::new(0);
 pub static CROSS_DESTROY: RealUsize = RealUsize::new(0);
@@ -63,6 +67,7 @@ pub fn arena_reset(reuse: bool, seed: u64) {
     a.created = 0;
     CROSS_READ.store(0, Ordering::Relaxed);
     CROSS_DESTROY.store(0, Ordering::Relaxed);
+    PANICKY_MADE.store(0, Ordering::Relaxed);
 }
 
 /// (id, live, destroyed count, strong) of every incarnation that is still addressable.
@@ -168,6 +173,11 @@ impl VArc {
             cell_new(st, me)
         });
         o.cell.store(c.unwrap_or(usize::MAX), Ordering::Relaxed);
+        let pct = PANICKY_PCT.load(Ordering::Relaxed);
+        if pct > 0 && me_thread() != 0 && ((id.wrapping_mul(2654435761) >> 7) % 100) < pct as u64 {
+            o.panic_on_drop.store(true, Ordering::Relaxed);
+            PANICKY_MADE.fetch_add(1, Ordering::Relaxed);
+        }
         VArc(p as *const Obj)
     }
 
